@@ -85,7 +85,7 @@ def build():
     cglob["_COMPRESSORS"] = table
     glob = dict(cglob)
     glob["Path"] = None
-    p.assume_note("registered compressors = the register_compressor(...) calls of numpy_pickle.py; user-registered compressors are out of scope")
+    p.assume_note("registered compressors = the register_compressor(...) calls of numpy_pickle.py (plus, variant dump[with-a-user-registered-compressor], one CompressorWrapper(obj, prefix) with the default extension)")
     p.spec_funcs["n_events"] = lambda interp, name: sum(1 for e in interp.ctx.events if e[0] == name)
     p.spec_funcs["ev"] = lambda i, k: i.ctx.events[k] if isinstance(k, int) and 0 <= k < len(i.ctx.events) else ("<none>", None, None, None)
     p.spec_funcs["events_named"] = lambda interp, name: PyList([e for e in interp.ctx.events if e[0] == name])
@@ -326,6 +326,33 @@ def build():
             "returns_filenames_for_paths_only": "(result is None) == (not isinstance(filename, str))",
         },
         exsures={"ValueError": {"nothing_written": "n_events('pickle.dump') == 0 and n_events('open') == 0 and n_events('_write_fileobject') == 0"}},
+    ))
+
+    # ---- dump with a USER-registered compressor in the table (register_compressor(name, CompressorWrapper(obj, prefix)) - the documented way,
+    # which leaves `extension` at its default ""): registering a format must not change what a plain path without compression request gets.
+    # (C19 depends on it: uncompressed files are the ones that can be memory-mapped, also by the workers of Parallel.)
+    def table_with_custom(interp):
+        t = table(interp)
+        cls = "CompressorWrapper"
+        obj = SObj(cls, {})
+        kind, mod, c, n = interp.pack.find_attr(cls, "__init__")
+        from pyvc.values import Closure
+        from pyvc.interp import Env
+        interp.call_closure(Closure(n, Env(mod, owner_cls=c), mod, owner_cls=c), [obj, Opaque("userfileobj", None)], {"prefix": b"CUSTOM"})
+        obj.fields["_regname"] = "custom"
+        d = dict(t.d)
+        d["custom"] = obj
+        return PyDict(d)
+
+    dglob_custom = dict(dglob)
+    dglob_custom["_COMPRESSORS"] = table_with_custom
+    p.add(Contract(
+        NP, "dump", variant="with-a-user-registered-compressor", props=["C03", "C19"], globals=dglob_custom,
+        params=dict(value=OpaqueOf("value"), filename=OneOf("f.pkl", "dir.gz/f", "f.gz"), compress=OneOf(False, 0, True, 3), protocol=None),
+        ensures={
+            "no_compression_request_and_no_compression_extension_means_raw": "implies((compress is False or compress == 0) and not filename.endswith('.gz'), wf() is None)",
+            "extension_of_a_builtin_format_still_selects_it": "implies(filename.endswith('.gz'), wf() is not None and wf()[2] == 'gzip')",
+        },
     ))
 
     # ------------------------------------------------------------------ structural: prefix-freedom on the REAL constants
